@@ -121,3 +121,18 @@ Definition write_sequence (w : nat) (s : list N) : list N :=
 
 Definition write_record (w : nat) (name : list N) (desc : option (list N)) (s : list N) : list N :=
   write_definition name desc ++ [LF] ++ write_sequence w s.
+
+(* ---- the naive parse of a whole file ----
+   One (name, bases) pair per line that starts with '>': the name as parse_def_name reads it
+   ([] when the definition is malformed) and the naive bases of the lines that follow.  Lines
+   before the first definition line belong to no record. *)
+Definition def_name (l : list N) : list N :=
+  match parse_def_name (def_content l) with Some n => n | None => [] end.
+
+Fixpoint naive_records (ls : list (list N)) : list (list N * list N) :=
+  match ls with
+  | [] => []
+  | l :: r => if is_def l then (def_name l, naive_bases r) :: naive_records r else naive_records r
+  end.
+
+Definition naive_file (f : list N) : list (list N * list N) := naive_records (lines f).
